@@ -7,11 +7,13 @@ package commitlog
 // (lbmodel, `log ...`); outputs are canonical strings.
 
 import (
+	"bytes"
 	"context"
 	"encoding/hex"
 	"fmt"
 	"hash/fnv"
 	"os"
+	"path/filepath"
 	"sort"
 	"strconv"
 	"strings"
@@ -397,9 +399,31 @@ func (v *vLogImpl) exec(line string) (out string) {
 	case "lastoff":
 		e, _ := strconv.ParseUint(f[1], 10, 64)
 		return fmt.Sprintf("ok %d", v.l.LastOffsetForLeaderEpoch(e))
-	case "reopen":
+	case "reopen", "reopenx":
 		if err := v.l.Close(); err != nil {
 			return "err " + vErrEnum(err)
+		}
+		if f[0] == "reopenx" {
+			// the index files do not survive the stop intact (last entry garbage / filled with garbage): open()
+			// must rebuild them from the log files, and everything a segment knows about itself comes from that rebuild
+			ents, _ := os.ReadDir(v.dir)
+			k := 0
+			for _, e := range ents {
+				if strings.HasSuffix(e.Name(), ".index") {
+					p := filepath.Join(v.dir, e.Name())
+					if fi, err := os.Stat(p); err == nil && fi.Size() > 0 {
+						// (an index cut short is NOT such damage: open() takes a shorter index for appends that did not
+						// complete and trims the log to it, by design - see trimLog)
+						if b, err := os.ReadFile(p); err == nil && k%2 == 0 && len(b) >= 2*entryWidth {
+							copy(b[len(b)-entryWidth:], bytes.Repeat([]byte{0xAB}, entryWidth)) // only the last entry is garbage
+							os.WriteFile(p, b, 0644)
+						} else {
+							os.WriteFile(p, bytes.Repeat([]byte{0xAB}, int(fi.Size())), 0644)
+						}
+						k++
+					}
+				}
+			}
 		}
 		v.l = nil
 		v.readers = map[string]*vLiveReader{} // readers end with the log they were attached to
@@ -427,6 +451,10 @@ func vRunBoth(t testing.TB, model *vModel, prog []string) (impl, mod []string) {
 	for i, op := range prog {
 		impl[i] = v.exec(op)
 		lines[i] = "log " + op
+		if op == "reopenx" {
+			// implementation-only variant of `reopen` (index files damaged before the restart): for the model a reopen
+			lines[i] = "log reopen"
+		}
 	}
 	mod = model.Ask(lines)
 	return
